@@ -12,7 +12,7 @@ def classify_crash(cr):
 
 SPEC = {
     'id': 'C15',
-    'lean_modules': ['AITB.Props.C15', 'AITB.Props.C15Gen', 'AITB.Props.C15Top', 'AITB.Props.C15Mdp', 'AITB.Props.C15Cex', 'AITB.Props.C15Flat'],
+    'lean_modules': ['AITB.Props.C15', 'AITB.Props.C15Gen', 'AITB.Props.C15Top', 'AITB.Props.C15Mdp', 'AITB.Props.C15Cex', 'AITB.Props.C15Flat', 'AITB.Props.C15Clean'],
     'theorems': [
         'AITB.FLP.weak_duality_sound',
         'AITB.FLP.optimalPair_sound',
@@ -55,6 +55,10 @@ SPEC = {
         'AITB.FLP.mdpFlatRows_sat_iff',
         'AITB.FLP.mdpLP_same_feasible',
         'AITB.FLP.mdpLP_sound_flat',
+        'AITB.FLP.dense_of_clean',
+        'AITB.FLP.genLoop_clean',
+        'AITB.FLP.flpGen_clean',
+        'AITB.FLP.mdpGen_clean',
     ],
     'harness': 'harness/c15.cpp',
     # the calls LpSolveWrapper.cpp makes into lp_solve are recorded at link time (the library is not modified)
